@@ -691,3 +691,31 @@ def first_seen_recorders(prog):
         if w["kind"] in ("assign", "borrow_mut") and prog.fns[w["fn"]].j.get("impl_adt") == "rt::atomic::FirstSeen":
             out.add(enclosing_fn(w["fn"]))
     return out
+
+
+def arg_expr_call(body, term):
+    """The call as an expression node ('call', path, [arg exprs], bb)."""
+    return ("call", callee_path(term), [body.expr_of_operand(a) for a in term["args"]], None)
+
+
+def switch_edges_by_variant(prog, term, discr_expr):
+    """{variant name: target block} for a switch on discr(e), including the `otherwise` edge."""
+    out = {}
+    explicit = set()
+    for (v, tb) in term["targets"]:
+        nm = variant_of_discr_value(prog, discr_expr, v)
+        if nm:
+            out[nm] = tb
+            explicit.add(nm)
+    for nm in all_variants(prog, discr_expr):
+        if nm not in explicit:
+            out[nm] = term["otherwise"]
+    return out
+
+
+def module_reach(prog, root_key, module_prefix):
+    """Function keys (incl. closures) of `module_prefix` reachable from root_key."""
+    r = prog.ident(root_key)
+    if r is None:
+        return set()
+    return {prog.insts[i].key for i in prog.reach([r]) if prog.insts[i].key.startswith(module_prefix)}
